@@ -374,7 +374,7 @@ def _brief(t, n=160):
 
 def check_deps(ctx, led, v, rule, attrs=SCORE_ATTRS):
     om = get_model(ctx, v)
-    allowed_prefix = ("m:", "minor")
+    allowed_prefix = ("m:", "minor", "eff:", "mv:", "d1", "d2", "d3", "d4", "d5", "d6")
     for a in attrs:
         d = deps_of(om.attr(a))
         extra = sorted(x for x in d if not x.startswith(allowed_prefix))
